@@ -164,10 +164,16 @@ class Photon:
         if isinstance(other, xr.DataArray) and isinstance(self._array, np.ndarray):
             raise TypeError("data must be a 2D Numpy array")
 
-        if self._array is not None:
-            self._array += other
+        # Always go through the setters: they validate, clip negative values and copy
+        if self._array is None:
+            if isinstance(other, xr.DataArray):
+                self.array_3d = other
+            else:
+                self.array = other
+        elif isinstance(self._array, xr.DataArray):
+            self.array_3d += other
         else:
-            self._array = other
+            self.array += other
         return self
 
     def __add__(self, other: Union[np.ndarray, "xr.DataArray"]) -> Self:
@@ -180,10 +186,16 @@ class Photon:
         if isinstance(other, xr.DataArray) and isinstance(self._array, np.ndarray):
             raise TypeError("Must be a 2D numpy array")
 
-        if self._array is not None:
-            self._array += other
+        # Always go through the setters: they validate, clip negative values and copy
+        if self._array is None:
+            if isinstance(other, xr.DataArray):
+                self.array_3d = other
+            else:
+                self.array = other
+        elif isinstance(self._array, xr.DataArray):
+            self.array_3d += other
         else:
-            self._array = other
+            self.array += other
         return self
 
     def _get_uninitialized_2d_error_message(self) -> str:
